@@ -20,10 +20,10 @@ from gen import c03gen as G
 
 ID = "C03"
 PROPS = ["IsoVerif/Props/C03.lean", "IsoVerif/Props/C03Hist.lean", "IsoVerif/Props/C03Build.lean",
-         "IsoVerif/Props/C03Merge.lean", "IsoVerif/Props/C03Whole.lean"]
+         "IsoVerif/Props/C03Merge.lean", "IsoVerif/Props/C03Whole.lean", "IsoVerif/Props/C03Paths.lean"]
 TARGETS = ["IsoVerif.Props.C03", "IsoVerif.Props.C03Hist", "IsoVerif.Props.C03Build", "IsoVerif.Props.C03Merge",
-           "IsoVerif.Props.C03Whole"]
-GEN_DEPS = ["Prims"]
+           "IsoVerif.Props.C03Whole", "IsoVerif.Props.C03Paths"]
+GEN_DEPS = ["Prims", "Enums", "Constants", "Strategies", "ModelConstruction"]
 LEVEL = "proof"
 RULE = ("dump call histories: exhaustive universe (every single call of <=2 models from a 12-model pool x 2 contexts, "
         "all ordered pairs of a sample of them) + seeded random histories (<=4 calls, <=5 models, recurring genes, "
